@@ -5,6 +5,7 @@
          optionality of its slot; a getter that reads "to the end of the table" is on the last field; every unwrap in a
          generated reader file is one of the recognised getter forms (or a guarded traversal access)
   C04-a  reader <-> writer agreement: wire field sequence, widths, version gates (see check_writers)
+  C04-e  computed version covers every present version-gated field (MIR, see c04v)
 """
 import os
 import re
@@ -18,8 +19,12 @@ def run(chk):
     check_readers(chk, "C04-r")
     from . import c04w
     c04w.check_writers(chk)
+    from . import c04v
+    from ..facts import Facts
+    chk.configs.append("union")
+    c04v.check_versions(chk, Facts("union"))
     chk.assume("generated files stay within the grammar font-codegen emits; anything else fails closed as 'outside the generated grammar'")
-    chk.assume("hand-written compute_* expressions, FromObjRef conversions and byte-for-byte idempotence are not decided")
+    chk.assume("hand-written compute_* expressions other than compute_version (C04-e), FromObjRef conversions and byte-for-byte idempotence are not decided")
 
 
 def check_readers(chk, rid):
